@@ -11,4 +11,20 @@ PROPS = {
                         "socket.error instances carry an int errno (None-errno is covered by 'not in ERRNO_RETRIES') and non-empty args",
                         "ERRNO_RETRIES / USE_MSG_WAITALL are arbitrary but fixed during a call"],
     },
+    "C06": {
+        "modules": ["specs.socket_model", "specs.pystruct", "specs.seqdict", "contracts.socketutil", "contracts.protocol"],
+        "contracts": ["Pyro5.protocol.SendingMessage.__init__", "Pyro5.protocol.ReceivingMessage.__init__",
+                      "Pyro5.protocol.ReceivingMessage.validate", "Pyro5.protocol.ReceivingMessage.add_payload",
+                      "Pyro5.protocol.recv_stub", "Pyro5.socketutil.SocketConnection.recv", "Pyro5.socketutil.receive_data"],
+        "harness": "replay/c06.py",
+        "explanation": "encoder proved to emit header ++ exact tiling of annotation chunks ++ payload (spec functions tile/off, loop "
+                       "invariant, size check before anything is built); decoder proved to accept only payloads whose chunk walk "
+                       "(spec function wpos) ends exactly at annotations_size, with every log entry equal to the bytes of its chunk; "
+                       "recv_stub proved to consume exactly 40+annotations_size+data_size bytes, to refuse after 6 or 40 bytes "
+                       "(too-large: at 40, before the body), and to raise body errors only after the whole message was consumed",
+        "assumptions": ["struct big-endian layouts, zlib round trip (uninterpreted compress/decompress/valid), ascii codec pair: specs/pystruct.py, validated against the real libraries in replay/c06.py (bounded)",
+                        "the composition decode(encode(f)) == f from the two contracts (tile/off vs wpos, an induction over the chunk index) is NOT machine checked: "
+                        "it is covered only by the bounded native round trip in replay/c06.py",
+                        "annotations=None and memoryview values with itemsize > 1 are outside the encoder contract's precondition"],
+    },
 }
